@@ -109,7 +109,8 @@ def run_case(case):
             before = snapshot(t)
             do_win = level[t] > 0 and rng.random() < 0.45
             if do_win:
-                kids = [c for c in range(len(lives)) if level[c] < level[t] and c not in used_as_window]
+                kids = [c for c in range(len(lives)) if level[c] < level[t] and
+                        (c not in used_as_window or (rng.random() < 0.25 and id(lives[c]) not in models[t].keys))]
                 if not kids:
                     do_win = False
             if do_win:
@@ -117,7 +118,10 @@ def run_case(case):
                 name = None if rng.random() < 0.5 else gen_name(rng)
                 why = f"{mm.label}.add_window({models[c].label} names={sorted(models[c].names, key=repr)}, name={name!r})"
                 mon.log(why)
-                pred = mm.predict_add_window(id(lives[c]), True, models[c], name, None, None)
+                waddr = None
+                if rng.random() < 0.06 and mm.items:
+                    waddr = mm.items[0]["start"] // (1 << models[c].aw) * (1 << models[c].aw)   # refused: overlap
+                pred = mm.predict_add_window(id(lives[c]), True, models[c], name, waddr, None)
                 if pred.kind == REFUSE and pred.reason in ("name-conflict", "name-conflict-absorbed"):
                     vn = valid_name(name) if name is not None else None
                     cand = [vn] if vn else list(models[c].names)
@@ -126,9 +130,12 @@ def run_case(case):
                         st["prefix_refusal"] = True
                 before_c = snapshot(c)
                 try:
-                    out, raised = m.add_window(lives[c], name=name), None
+                    out, raised = m.add_window(lives[c], name=name, addr=waddr), None
                 except Exception as e:
                     out, raised = None, e
+                if waddr is not None and raised is not None:
+                    mon.count("refused_for_address_reason")
+                    mon.eq("atomic", snapshot(t), before, f"{why}: refused (address) but changed {mm.label}")
                 if judge(t, pred, raised, name, why, before):
                     mm.commit_window(id(lives[c]), models[c], name, out[0], out[1], out[2])
                     used_as_window.add(c)
